@@ -586,13 +586,18 @@ class Snapshot(dict):
     """{mailbox name: {'uidvalidity','uidnext','msgs':[(uid, tag, flags, idate)]}}"""
 
 
-async def observe_mailbox(sess: ImapSession, name: bytes, want_body: bool = False, want_flags: bool = True):
-    """EXAMINE + UID FETCH 1:* ... ; returns dict or None if not selectable.
-    name must already be an encoded astring (e.g. b'inbox' or b'"a b"')."""
+async def observe_mailbox(sess: ImapSession, name: bytes, want_body: bool = False, want_flags: bool = True,
+                          known: dict | None = None):
+    """EXAMINE + FETCH 1:* ... ; returns dict or None if not selectable.
+    name must already be an encoded astring (e.g. b'inbox' or b'"a b"').
+
+    `known` (optional) maps (uidvalidity, uid) -> (tag, body): messages found
+    there are identified by UID and not re-read (much cheaper: the server
+    parses a message for every header/body fetch); pass None to read all."""
     r = await sess.cmd(b"EXAMINE " + name)
     if not r.ok:
         return None
-    info = {"exists": None, "uidvalidity": None, "uidnext": None, "msgs": []}
+    info = {"exists": None, "uidvalidity": None, "uidnext": None, "msgs": [], "select": r}
     for x in r.resps:
         if x.kind == "untagged":
             if x.name == "EXISTS":
@@ -602,32 +607,53 @@ async def observe_mailbox(sess: ImapSession, name: bytes, want_body: bool = Fals
                     info["uidvalidity"] = int(x.code[1])
                 elif x.code[0].upper() == "UIDNEXT":
                     info["uidnext"] = int(x.code[1])
+    uv = info["uidvalidity"]
     if info["exists"]:
-        atts = b"UID INTERNALDATE BODY.PEEK[HEADER.FIELDS (X-VF-Tag)]"
+        atts = b"UID INTERNALDATE"
         if want_flags:
             atts += b" FLAGS"
-        if want_body:
-            atts += b" BODY.PEEK[]"
         r2 = await sess.cmd(b"FETCH 1:* (" + atts + b")")
         info["fetch_status"] = r2.status
+        rows = {}
         for seq, items in r2.fetches():
             if "UID" not in items:
                 continue  # unsolicited flag update, not an answer
-            tag = None
-            h = items.get("BODY[HEADER.FIELDS (X-VF-TAG)]")
-            if h is not None:
-                m = re.search(rb"X-VF-Tag:\s*(\S+)", bytes(h), re.I)
-                tag = m.group(1).decode() if m else None
-            info["msgs"].append(
-                {
-                    "seq": seq,
-                    "uid": int(items["UID"]) if "UID" in items else None,
-                    "tag": tag,
-                    "flags": frozenset(items.get("FLAGS") or ()),
-                    "idate": bytes(items["INTERNALDATE"]) if items.get("INTERNALDATE") is not None else None,
-                    "body": bytes(items["BODY[]"]) if items.get("BODY[]") is not None else None,
-                }
-            )
+            rows[seq] = {
+                "seq": seq,
+                "uid": int(items["UID"]),
+                "tag": None,
+                "flags": frozenset(items.get("FLAGS") or ()),
+                "idate": bytes(items["INTERNALDATE"]) if items.get("INTERNALDATE") is not None else None,
+                "body": None,
+            }
+        need = []
+        for seq in sorted(rows):
+            row = rows[seq]
+            k = (uv, row["uid"])
+            if known is not None and k in known:
+                row["tag"], row["body"] = known[k]
+            else:
+                need.append(row)
+        if need:
+            atts2 = b"UID BODY.PEEK[HEADER.FIELDS (X-VF-Tag)]" + (b" BODY.PEEK[]" if want_body else b"")
+            uids = ",".join(str(x["uid"]) for x in need).encode()
+            r3 = await sess.cmd(b"UID FETCH " + uids + b" (" + atts2 + b")")
+            byuid = {x["uid"]: x for x in need}
+            for seq, items in r3.fetches():
+                if "UID" not in items:
+                    continue
+                row = byuid.get(int(items["UID"]))
+                if row is None:
+                    continue
+                h = items.get("BODY[HEADER.FIELDS (X-VF-TAG)]")
+                if h is not None:
+                    m = re.search(rb"X-VF-Tag:\s*(\S+)", bytes(h), re.I)
+                    row["tag"] = m.group(1).decode() if m else None
+                if items.get("BODY[]") is not None:
+                    row["body"] = bytes(items["BODY[]"])
+                if known is not None and row["tag"] is not None:
+                    known[(uv, row["uid"])] = (row["tag"], row["body"])
+        info["msgs"] = [rows[k] for k in sorted(rows)]
     await sess.cmd(b"UNSELECT")
     return info
 
